@@ -126,7 +126,7 @@ def run_case(case, ctx):
 
 
 def budget(tier):
-	return {'quick': 40000, 'thorough': 600000}[tier]
+	return {'quick': 100000, 'thorough': 600000}[tier]
 
 
 BASES_UNUSED = {
